@@ -49,7 +49,7 @@ void env_write(uint8_t *buf, int32_t len) {
 	if (nwr < ENV_WR_MAX && out_len + (size_t) len <= ENV_OUT_MAX) {
 		wr[nwr].off = (uint32_t) out_len; wr[nwr].len = (uint32_t) len;
 		wr[nwr].tid = (uint8_t) vs_self_id(); wr[nwr].t_us = vs_now_us();
-		wr[nwr].joined_seen = (uint8_t) vs_threads_joined();
+		wr[nwr].joined_seen = (uint8_t) vs_threads_joined(); wr[nwr].consumed = (uint32_t) consumed;
 		nwr++;
 		memcpy(outb + out_len, buf, (size_t) len); out_len += (size_t) len;
 	} else { fprintf(stderr, "env: transcript overflow\n"); _Exit(98); }
